@@ -44,7 +44,13 @@ func expandC15(_ *testing.T, seed uint64, tier string) []*core.Plan {
 	n := r.Range(4, 60)
 	offline := map[int]bool{}
 	for i := 0; i < n; i++ {
-		switch r.Weighted([]int{14, 2, 2, 2}) {
+		switch r.Weighted([]int{14, 2, 2, 2, 1}) {
+		case 4:
+			// the subscriber comes back while its previous connection is still
+			// up (half-open): a resumption without a cut
+			if s := 1 + r.Intn(ns); !offline[s] {
+				p.Items = append(p.Items, core.Item{K: "takeover", P: s})
+			}
 		case 0:
 			pb := 1 + r.Intn(np)
 			seq[pb]++
@@ -137,7 +143,7 @@ func runC15(t *testing.T, p *core.Plan) *core.Result {
 				if n := pr.Link.A2B.InFlight(); n > 0 && !pr.Link.A2B.Broken() {
 					nets = append(nets, func() { w.deliverToBroker(pr, w.chunk(n)) })
 				}
-				if n := pr.Link.B2A.InFlight(); n > 0 && !pr.Link.B2A.Broken() {
+				if n := pr.Link.B2A.InFlight(); n > 0 && !pr.Link.B2A.Broken() && !pr.Stalled {
 					nets = append(nets, func() { w.deliverToPeer(pr, w.chunk(n)) })
 				}
 			}
@@ -179,6 +185,12 @@ func runC15(t *testing.T, p *core.Plan) *core.Result {
 				case "resume":
 					if cur[it.P].EOF {
 						connect(it.P)
+					}
+				case "takeover":
+					if old := cur[it.P]; !old.EOF {
+						old.Stalled, old.AckMode, old.Pending = true, 2, nil
+						connect(it.P)
+						res.Count("half_open_takeovers", 1)
 					}
 				}
 			case "gate":
